@@ -245,7 +245,7 @@ def normal_jobs(r, n: int, prefix: str, max_boards: int = 3) -> List[tuple]:
         for s in range(4):
             styles.append({'auction': mode, 'passout_boards': po,
                            'ppass': [0.45, 0.2, 0.7][k % 3],
-                           'play': 'revoke' if k % 5 == 2 else 'legal'})
+                           'play': 'revoke' if k % 5 == 2 else 'ruff-low' if k % 5 == 4 else 'legal'})
         cfg = {'boards': boards, 'seed': r.randrange(1 << 30), 'styles': styles,
                'vary': k % 4 != 3, 'policy_spec': POLICIES[k % len(POLICIES)],
                'teams': (rand_id(r).strip() or 'a', rand_id(r).strip() or 'b'),
@@ -257,6 +257,11 @@ def normal_jobs(r, n: int, prefix: str, max_boards: int = 3) -> List[tuple]:
             # team names outside ASCII
             cfg['teams'] = (r.choice(['Équipe Zürich', '東京', 'Ünïcødé']) + rand_id(r).strip(),
                             r.choice(['Łódź', 'Ελλάς', 'команда']) + rand_id(r).strip())
+        if k % 7 == 3:
+            # one seat's program thinks for a long time (virtual time) over a call
+            sl = r.randrange(4)
+            styles[sl] = dict(styles[sl], think={'board': 1 + k % nb, 'seconds': r.choice([31, 45, 100, 3700]),
+                                                 'at': r.randrange(0, 3)})
         if k % 9 == 8:
             # team names that look like protocol text (no double quote in them)
             cfg['teams'] = (r.choice(['as North using', 'E/W : x', 'North plays 2C', 'Teams : N/S',
@@ -271,6 +276,31 @@ def normal_jobs(r, n: int, prefix: str, max_boards: int = 3) -> List[tuple]:
                              'vary': False, 'policy_spec': cfg['policy_spec'],
                              'teams': (rand_id(r).strip() or 'c', rand_id(r).strip() or 'd')}
         jobs.append((f'{prefix}{k}', cfg, 'normal', None))
+    # twin boards: the same deal turned by one seat, the same contract (3NT by the
+    # dealer), the same one-sided vulnerability, the same play - only the declaring
+    # SIDE differs, so the scores must differ (nothing may be keyed on less)
+    for tw in range(2):
+        dl = random_deal(r)
+        dl2 = [dl[3], dl[0], dl[1], dl[2]]
+        v1 = 1 + tw                                     # N/S, then E/W vulnerable
+        boards = [(dl, 0, v1, 'twinA', None), (dl2, 1, v1, 'twinB', None),
+                  ([dl[2], dl[3], dl[0], dl[1]], 2, v1, 'twinC', None)]
+        styles = [{'script': [14 + 5 * tw, 35, 35, 35], 'play': 'lowest'}] * 4
+        jobs.append((f'{prefix}twin{tw}', {'boards': boards, 'seed': r.randrange(1 << 30),
+                                           'styles': styles, 'vary': False,
+                                           'policy_spec': ('fifo',)}, 'normal', None))
+    # a board list in which a board is repeated (value-equal entries, the last included)
+    bs = rand_boards(r, 2)
+    jobs.append((f'{prefix}again', {'boards': [bs[0], bs[1], bs[0]], 'seed': r.randrange(1 << 30),
+                                    'styles': [{'auction': 'weak', 'passout_boards': {3}}] * 4,
+                                    'vary': False, 'policy_spec': ('random', 0.05)}, 'normal', None))
+    # more than a hundred boards (all passed out but the last)
+    if n >= 30:
+        nb = 103
+        boards = rand_boards(r, nb)
+        styles = [{'auction': 'weak', 'passout_boards': set(range(1, nb)), 'play': 'ruff-low'}] * 4
+        jobs.append((f'{prefix}hundred', {'boards': boards, 'seed': r.randrange(1 << 30), 'styles': styles,
+                                          'vary': False, 'policy_spec': ('fifo',)}, 'normal', None))
     # a long session: twelve boards (two-digit board numbers), mostly passed out
     boards = rand_boards(r, 12)
     played = {r.randrange(1, 13), 10 + r.randrange(0, 3)}
@@ -488,7 +518,9 @@ def abort_jobs(r, n: int, prefix: str) -> List[tuple]:
         k = 1 + (q // 3) % nb
         boards = rand_boards(r, nb)
         kind = kinds[q % len(kinds)]
-        styles = [{'auction': 'weak', 'passout_boards': set()} for _ in range(4)]
+        # every other session: the boards before the faulted one include a passed-out board
+        po_before = {1} if (k > 1 and q % 2 == 1) else set()
+        styles = [{'auction': 'weak', 'passout_boards': set(po_before)} for _ in range(4)]
         cfg: Dict[str, Any] = {'boards': boards, 'seed': r.randrange(1 << 30), 'styles': styles,
                                'vary': q % 2 == 0,
                                'policy_spec': POLICIES[q % len(POLICIES)],
@@ -525,6 +557,26 @@ def abort_jobs(r, n: int, prefix: str) -> List[tuple]:
                 c = r.choice([x for x in range(52) if x not in hand])
                 cfg['fault']['card'] = ('23456789TJQKA'[c % 13] + 'CDHS'[c // 13]).encode()
         jobs.append((f'{prefix}{q}', cfg, 'abort', k - 1))
+    # illegal calls of every kind, made by the seat's own program at the end of a
+    # legal auction (board 2; board 1 is passed out and must be in the log)
+    scripts = [[0, 36, 37, 35, 37],        # a second redouble of a redoubled bid
+               [0, 36, 37, 35, 35, 37],
+               [5, 35, 36],                # a double of partner's bid
+               [7, 3],                     # an insufficient bid
+               [7, 7],                     # the same bid again
+               [0, 37],                    # a redouble without a double
+               [36],                       # a double before any bid
+               [35, 37],
+               [0, 36, 36],                # a double of a doubled bid
+               [0, 36, 35, 37],            # a redouble by the doubling side
+               [0, 35, 35, 36, 35, 36]]    # a double of one's own side's doubled bid
+    for j, sc in enumerate(scripts[:n // 12 + 3]):
+        boards = rand_boards(r, 2)
+        boards = [(dl_, 0, v_, i_, dda_) for (dl_, d_, v_, i_, dda_) in boards]    # dealer North
+        styles = [{'script': sc, 'passout_boards': {1}} for _ in range(4)]
+        jobs.append((f'{prefix}s{j}', {'boards': boards, 'seed': r.randrange(1 << 30), 'styles': styles,
+                                       'vary': j % 2 == 0, 'policy_spec': POLICIES[j % len(POLICIES)],
+                                       'stale_output': j % 3 == 0}, 'abort', 1))
     return jobs
 
 
@@ -538,6 +590,10 @@ def admission_jobs(r, n: int, prefix: str) -> List[tuple]:
             # team names outside ASCII (several bytes per character on the wire)
             ns = r.choice(['Équipe Zürich', '東京', 'Ünïcødé']) + ns
             ew = r.choice(['Łódź', 'Ελλάς', 'команда']) + ew
+        if q % 7 == 6:
+            # characters that mean something to str.format / % / regular expressions
+            ns = r.choice(['{Aces}', 'A{{ces', '%s', '{0}', 'a}b{', '(x', '[ab', 'a|b', '\\d+', '$^', '*', '?+'])
+            ew = r.choice(['{}', '%d %s', 'E}', '.*', 'x)', 'a\\b', '^$']) + ew
         if q % 7 == 3:
             ns = ''                    # the empty string is a team name too
         if q % 7 == 5:
